@@ -37,4 +37,8 @@ class NamespaceConfig(config.Config):
       values: Iterable[Any],
       metadata: config.BuildableTraverserMetadata,
   ):
-    return cls(**metadata.arguments(values))
+    rebuilt = cls(**metadata.arguments(values))
+    # Tags (and history) are not constructor arguments; carry them over.
+    object.__setattr__(rebuilt, '__argument_tags__', metadata.tags())
+    object.__setattr__(rebuilt, '__argument_history__', metadata.history())
+    return rebuilt
